@@ -722,6 +722,15 @@ func ownedBy(v ssa.Value, p *ssa.Parameter, depth int) bool {
 		return objOf(fa.X, fa.Field, p, depth+1)
 	case *ssa.Field:
 		return objOf(x.X, x.Field, p, depth+1)
+	case *ssa.ChangeType:
+		return ownedBy(x.X, p, depth+1)
+	case *ssa.TypeAssert:
+		// a slice-typed value found inside the argument (or one of its elements): a tee or multi-syncer handed in
+		return argOrElem(x.X, p)
+	case *ssa.Extract:
+		if ta, ok := x.Tuple.(*ssa.TypeAssert); ok && x.Index == 0 {
+			return argOrElem(ta.X, p)
+		}
 	case *ssa.Phi:
 		// a variable that holds the owner's slice on some path (all := co.context; if len(all) == 0 { all = make(…) })
 		// - but not the accumulator of a loop that starts from a fresh slice and grows by its own appends
@@ -732,6 +741,20 @@ func ownedBy(v ssa.Value, p *ssa.Parameter, depth int) bool {
 			if ownedBy(e, p, depth+1) {
 				return true
 			}
+		}
+	}
+	return false
+}
+
+// argOrElem: v is the parameter p itself or an element of the slice p.
+func argOrElem(v ssa.Value, p *ssa.Parameter) bool {
+	v = Strip(v)
+	if v == ssa.Value(p) {
+		return true
+	}
+	if ld, ok := v.(*ssa.UnOp); ok && ld.Op == token.MUL {
+		if ia, ok := ld.X.(*ssa.IndexAddr); ok {
+			return Strip(ia.X) == ssa.Value(p)
 		}
 	}
 	return false
